@@ -738,6 +738,57 @@ func c15Run(ctx *core.Ctx, nent int, dotu bool, thorough bool) core.Result {
 						fmt.Sprintf("listing with count %d (msize %d) returned %d names for %d entries; duplicated %v, missing %v", cnt, msize, len(names), nent, head(dup), head(missing)), nil)
 				}
 			}
+			// the directory changes between two listings through the same fid: rereading from offset 0 lists what is
+			// there now (entries added to a directory that was listed to its end, also an empty one; then removed again)
+			if ok && ci%3 == 1 && len(res.Violations) == 0 {
+				relist := func() ([]string, bool) {
+					var names []string
+					off := uint64(0)
+					for reads := 0; reads < nent+20; reads++ {
+						rp := rr.rpc(&wire.Msg{Type: wire.Tread, Fid: fidn, Offset: off, Count: uint32(L)})
+						res.Evals++
+						if rp == nil || rp.Type != wire.Rread {
+							return nil, false
+						}
+						if len(rp.Data) == 0 {
+							sort.Strings(names)
+							return names, true
+						}
+						for b := rp.Data; len(b) > 0; {
+							st, used, err := wire.DecodeStat(b, dotu)
+							if err != nil {
+								return nil, false
+							}
+							names = append(names, st.Name)
+							b = b[used:]
+						}
+						off += uint64(len(rp.Data))
+					}
+					return nil, false
+				}
+				var added []string
+				for k := 0; k < 1+ci%3; k++ {
+					nm := fmt.Sprintf("zz-added-%d-%d", ci, k)
+					if os.WriteFile(filepath.Join(dir, nm), []byte("x"), 0o644) == nil {
+						added = append(added, nm)
+					}
+				}
+				want := append(append([]string{}, hostNames...), added...)
+				sort.Strings(want)
+				got, rok := relist()
+				if !rok || strings.Join(got, "\x00") != strings.Join(want, "\x00") {
+					_, missing := diffNames(got, want)
+					fail("relist-after-change;added", fmt.Sprintf("after %d entries were added to a directory of %d that had been listed to its end, rereading from offset 0 through the same fid returned %d names (missing %v)", len(added), nent, len(got), head(missing)), nil)
+				}
+				for _, nm := range added {
+					_ = os.Remove(filepath.Join(dir, nm))
+				}
+				got, rok = relist()
+				if !rok || strings.Join(got, "\x00") != strings.Join(hostNames, "\x00") {
+					fail("relist-after-change;removed", fmt.Sprintf("after the added entries were removed again, rereading from offset 0 returned %d names for %d entries", len(got), nent), nil)
+				}
+				res.Count("relistings_after_directory_change", 2)
+			}
 			res.Sig(fmt.Sprintf("dir|%d|%v|%d|%d|%v", nent, dotu, msize, cnt, restartAt > 0))
 			rr.rpc(&wire.Msg{Type: wire.Tclunk, Fid: fidn})
 		}
